@@ -114,8 +114,9 @@ func (memPool *MemPool) AddTransaction(ctx context.Context, tx *wire.MsgTx,
 			// Append conflicting
 			// It is possible tx conflict on more than one input and we don't want duplicates in
 			// the conflicts list.
-			appendIfNotContained(conflicts, list)
+			conflicts = appendIfNotContained(conflicts, list)
 			list = append(list, *txid)
+			memPool.inputs[*outpointHash] = list
 		} else {
 			// Create new list with only this tx hash
 			list := []bitcoin.Hash32{*txid}
@@ -127,7 +128,7 @@ func (memPool *MemPool) AddTransaction(ctx context.Context, tx *wire.MsgTx,
 }
 
 // Appends the items in add to list if they are not already in list
-func appendIfNotContained(list []bitcoin.Hash32, add []bitcoin.Hash32) {
+func appendIfNotContained(list []bitcoin.Hash32, add []bitcoin.Hash32) []bitcoin.Hash32 {
 	for _, addHash := range add {
 		found := false
 		for _, hash := range list {
@@ -141,6 +142,8 @@ func appendIfNotContained(list []bitcoin.Hash32, add []bitcoin.Hash32) {
 			list = append(list, addHash)
 		}
 	}
+
+	return list
 }
 
 // Removes a tx hash from the mempool
@@ -171,11 +174,12 @@ func (memPool *MemPool) removeTransaction(hash bitcoin.Hash32) bool {
 				if len(otherHashes) > 1 {
 					// Remove this outpoint hash from the list
 					for i, otherHash := range otherHashes {
-						if otherHash.Equal(outpointHash) {
+						if otherHash.Equal(&hash) {
 							otherHashes = append(otherHashes[:i], otherHashes[i+1:]...)
 							break
 						}
 					}
+					memPool.inputs[*outpointHash] = otherHashes
 				} else {
 					delete(memPool.inputs, *outpointHash)
 				}
@@ -226,7 +230,8 @@ func (memPool *MemPool) Conflicting(tx *wire.MsgTx) []bitcoin.Hash32 {
 	// Check for conflicting inputs
 	for _, input := range tx.TxIn {
 		if list, exists := memPool.inputs[*input.PreviousOutPoint.OutpointHash()]; exists {
-			for _, hash := range list {
+			// Copy because removeTransaction modifies the list being iterated.
+			for _, hash := range append([]bitcoin.Hash32{}, list...) {
 				result = append(result, hash)
 				memPool.removeTransaction(hash)
 			}
